@@ -6,7 +6,7 @@ ID = "C07"
 SECTIONS = ["ops", "fitters"]
 LEAN_MODULES = ["QExPy.Props.C07"]
 THEOREMS = ["QExPy.C07_poly_model", "QExPy.C07_lin", "QExPy.C07_quad", "QExPy.C07_expo",
-            "QExPy.C07_gauss", "QExPy.C07_fit_value", "QExPy.C07_fit_value_poly",
+            "QExPy.C07_gauss", "QExPy.C07_fit_value", "QExPy.C07_fit_value_poly", "QExPy.C07_poly_design", "QExPy.C07_objective_poly",
             "QExPy.C07_residual_def", "QExPy.C07_chi2_def", "QExPy.C07_chi2_points",
             "QExPy.C07_chi2_nonneg", "QExPy.C07_perr_sq", "QExPy.C07_corr_registered",
             "QExPy.C07_corr_diag", "QExPy.C07_corr_symm", "QExPy.C07_cov_roundtrip",
